@@ -138,7 +138,7 @@ def handle (j : Json) : IO Unit := do
     offline.all (fun x => mOffline.contains x || baseOffline.contains x) && mOffline.all (offline.contains ·)
   -- the property on the implementation's own observations
   let noResponse := sent.isEmpty                          -- no backend put a response on the wire
-  let prompt := cErr != "timeout" && ms ≤ 2000
+  let prompt := cErr != "timeout" && ms ≤ 2000 + jnat (jget sc "slow_ms")   -- after the backend's own scripted delay
   let c1 := !noResponse || (failureReported seen && prompt)
   let c2 := dialectOk anthropicRoute seen
   let answered := if (fault == "b4xx" || fault == "b5xx") && !sent.isEmpty then some bStatus else none
